@@ -9,7 +9,7 @@ LEVEL = "exploration"
 RULE = (
     "cases = (PollExecutor over a manual base (delegate completions are program steps) or sync/pool; 1-5 futures; a scripted poll "
     "function: per future {yield result / exception / twice on its n-th sighting, or never}, per call {raise, return an interval, take "
-    "virtual time, call notify()}; a scripted cancel function (True/False/raise/absent); runner, canceller and notifier threads acting at "
+    "virtual time, call notify()}; a scripted cancel function (True/False/raise/absent; one catalogue program has a cancel function that takes 1 s of virtual time while delegates finish and notify() is called); runner, canceller and notifier threads acting at "
     "generated virtual times; tape; exact clock). Enumerated: catalogue programs in which a delegate completion, a cancel, a yield and a "
     "notify all fall on the same virtual instant as a poll, with every single pre-emption placement. Oracle over the history: poll calls "
     "never overlap; each call's descriptor list has no duplicates, contains every future whose delegate-completing call returned "
@@ -101,6 +101,15 @@ def catalog():
                   sub("f0"), sub("f1"), sub("f2"), ["sleep", 0.01], ["run", "ex", 0], ["run", "ex", 1], ["run", "ex", 2]],
         "threads": [[["sleep", 0.99], ["cancel", "f1"], ["cancel", "f2"]]],
         "settle": 2.5, "final": [["state", "f0"], ["state", "f1"], ["state", "f2"]]}}
+    # a cancel function that takes time: delegates finishing and a notify() landing while it runs must still be polled at once
+    # (user code must not be run under a lock the poll thread or the completing threads need).  The future being cancelled is one
+    # the poll function never yields for: cancel() holds that future's own lock while the cancel function runs, by design, so a
+    # poll round that resolves it would rightly wait - slow cancel functions are therefore not part of the random generator.
+    out["P10/eligible-and-notify-during-slow-cancel-fn"] = {"prog": {
+        "setup": [stack(man, 5.0, {"f0.fn": {"after": None}, "f1.fn": {"after": 1}, "f2.fn": {"after": 2}}, cancel=[["vsleep", 1.0, ["ret", True]]]),
+                  sub("f0"), sub("f1"), sub("f2"), ["sleep", 0.01], ["run", "ex", 0]],
+        "threads": [[["sleep", 0.5], ["cancel", "f0"]], [["sleep", 0.75], ["run", "ex", 1]], [["sleep", 1.0], ["run", "ex", 2]], [["sleep", 1.25], ["notify", "ex"]]],
+        "settle": 8.0, "final": [["state", "f0"], ["state", "f1"], ["state", "f2"]]}}
     return out
 
 
